@@ -42,12 +42,13 @@ var alphabet = []string{
 	"a", "e", "x", "E", "f", "0", "1", "9", "_", "$", ".", " ", "\n", "\t", "'", "\"", "`", "\\",
 	";", "/", "=", "!", "~", "<", ">", "-", "+", "*", "%", "(", ")", "[", "]", "|", ",", "n", "t",
 	"\x00", "\xff", "\xc3\xa9", "\xe2\x80\xa8", "\xe2", "\xc2\xa0", "\xf0\x9f\x98\x80", "#", "\r",
+	"\xef\xbb\xbf", "\xc2\x85", "\xe2\x80\x83", "\xe3\x80\x80", "\v", "\f",
 }
 
 // smallAlphabet is used for exhaustive enumeration.
 var smallAlphabet = []string{
 	"a", "e", "x", "0", "1", ".", " ", "\n", "'", "\"", "`", "\\", ";", "/", "=", "!", "~", "<",
-	"-", "+", "(", "[", "]", ")", "|", ",", "\xff", "\xc3\xa9", "\xe2\x80\xa8", "\xe2", "n", "_",
+	"-", "+", "(", "[", "]", ")", "|", ",", "\xff", "\xc3\xa9", "\xe2\x80\xa8", "\xe2", "n", "_", "\xef\xbb\xbf",
 }
 
 type emitFn func(fields ...string)
@@ -116,12 +117,13 @@ func randBytes(r *rng) string {
 var lexFragments = []string{
 	"0x", "0X1f", "0xg", "0xFFFFFFFFFFFFFFFF", "0x10000000000000000", "0x00000000000000000001", "1e", "1e+", "1e+5", "1E-7", "1e5e", "0e0", "0e", "00.5", "0.", ".5", "..", "1..2", "1.2.3", "007",
 	"==", "=~", "!=", "!~", "<=", ">=", "//", "// c\n", "//", "/", "'a'", "\"b\"", "'a\\'b'", "'a\\n'", "'\\", "'a\n", "`q`", "`a``b`", "`a\n", "``", "```", "and", "or", "in", "by", "andy", "let", "$left", "a.b",
-	"18446744073709551615", "18446744073709551616", "1.5e300", "\xe2\x80", "'\\\xe2\x80\xa8'", "'\xff\\t\xff'",
+	"18446744073709551615", "18446744073709551616", "1.5e300", "\xef\xbb\xbf", "\xef\xbb\xbfT", ";\xef\xbb\xbf", "\xc2\xa0", "\xc2\x85", "// c", "//", "0x0ffffffffffffffff", "0x00000000000000001", "\xe2\x80", "'\\\xe2\x80\xa8'", "'\xff\\t\xff'",
 }
 
 var sampleStatements = []string{
 	"T | where a == 'x;y'", "let x = 1", "T | project `a;b`", "T // c;\n| count", "T | where a == \"q;\"", "X", "T | take 0x1f", "T | where a =~ 'b' and c in (1, 2)",
 	"T | where s == 'unterminated", "T | extend z = 1e", "T | where a < 0x", "T | where x /", "T | where x !", "T | where `un", "", " ", "\n", "// only comment", "T | where a == 1 // trailing", "T | where f(a", "T | where (a", "T | where a[1", "T | where x in (1", "T | join (U", "b) | count", "T | where strcat('a', 'b'",
+	"\xef\xbb\xbfT | count", "\xef\xbb\xbf", "T\xc2\xa0| count", "T | project `a;b`, `c`", "T | where a == 1 // trailing ; comment", "T|where`x`==`y;`",
 }
 
 func randSemis(r *rng) string {
